@@ -846,6 +846,20 @@ theorem gradShapeOld_wrong :
     ∀ b ds, gradShapeOld [b] ds = .ok (gradShape [b] ds) := by
   refine ⟨by decide, by decide, by decide, by decide, fun b ds => rfl⟩
 
+/-- PINNED CODE: `jac` (and `sym_grad`) on a batch with two axes `(2,3)`, 2 components, one 2-dimensional variable
+    returned shape (2,3,3,2) with wrong entries instead of (2,3,2,2); one batch axis was always right -/
+theorem jacShapeOld_wrong :
+    jacShapeOld [2, 3] 2 [2] = .ok [2, 3, 3, 2] ∧ jacShape [2, 3] 2 [2] = [2, 3, 2, 2] ∧
+    ∀ b m ds, jacShapeOld [b] m ds = .ok (jacShape [b] m ds) := by
+  refine ⟨by decide, by decide, fun b m ds => rfl⟩
+
+/-- the single-row broadcasting oddity of `sym_grad` as mirrored: for one output and coordinates y₀ y₁ the result is
+    the 2×2 matrix ½(∂ⱼu + ∂ᵢu) -/
+example (u : Expr (String × Nat)) :
+    symGrad [u] [[("x", 0), ("x", 1)]] = .ok
+      [[mul (const (1/2)) (add (D ("x", 0) u) (D ("x", 0) u)), mul (const (1/2)) (add (D ("x", 1) u) (D ("x", 0) u))],
+       [mul (const (1/2)) (add (D ("x", 0) u) (D ("x", 1) u)), mul (const (1/2)) (add (D ("x", 1) u) (D ("x", 1) u))]] := rfl
+
 /-! ## non-vacuity: concrete instances of the hypotheses used above -/
 
 section examples
